@@ -1074,3 +1074,142 @@ Section Parents.
       + simpl in Hf. lia.
   Qed.
 End Parents.
+
+(* ================================================================== what finalize establishes *)
+
+Lemma filter_map_In {A B} (f : A -> option B) l y :
+  In y (filter_map f l) <-> exists x, In x l /\ f x = Some y.
+Proof.
+  induction l as [|a l IH]; simpl.
+  - split; [tauto|]. intros [x [[] _]].
+  - destruct (f a) eqn:E; simpl; rewrite IH.
+    + split.
+      * intros [<-|[x [Hx Hf]]]; eauto.
+      * intros [x [[<-|Hx] Hf]]; [left; congruence|right; eauto].
+    + split.
+      * intros [x [Hx Hf]]; eauto.
+      * intros [x [[<-|Hx] Hf]]; [congruence|eauto].
+Qed.
+
+Lemma mfind_map {V W} (g : name -> V -> W) (m : fmap V) k :
+  mfind k (map (fun nt => (fst nt, g (fst nt) (snd nt))) m) = option_map (g k) (mfind k m).
+Proof.
+  induction m as [|[k1 v1] m IH]; simpl; auto.
+  destruct (name_eqb k k1) eqn:E; auto. apply name_eqb_eq in E. subst. reflexivity.
+Qed.
+
+Section Accept.
+  Variable ev : env.
+  Variable m : smap.
+  Hypothesis m_sorted : msorted m.
+  Let pre := ev_prefixes ev.
+
+  Lemma parents_of_sound n t ps :
+    In (n, t) m -> parents_of pre m n t = Ok ps ->
+    exists u, path (ext pre m) n (rev ps) u /\ is_root m u /\ NoDup (n :: ps).
+  Proof.
+    intros Hin H. unfold parents_of in H.
+    pose proof (find_parents_sound pre m (S (length m)) n n t []) as Hs.
+    rewrite H in Hs. apply Hs.
+    - apply In_mfind; auto. apply msorted_nodup; auto.
+    - constructor.
+    - constructor; [intros []|constructor].
+  Qed.
+
+  (* the parents of a parent are parents too *)
+  Lemma parents_chain n t ps p tp :
+    In (n, t) m -> parents_of pre m n t = Ok ps -> In p ps -> mfind p m = Some tp ->
+    exists ps', parents_of pre m p tp = Ok ps' /\ incl ps' ps.
+  Proof.
+    intros Hin H Hp Htp. destruct (parents_of_sound _ _ _ Hin H) as (u & Hpath & Hroot & Hnd).
+    apply in_rev in Hp. apply in_split in Hp. destruct Hp as (l1 & l2 & Hl).
+    rewrite Hl in Hpath.
+    assert (path (ext pre m) p l2 u) as Hp2.
+    { clear - Hpath. revert n Hpath. induction l1 as [|a l1 IH]; intros n H; simpl in H.
+      - inversion H; subst; auto.
+      - inversion H; subst. eauto. }
+    exists (rev l2). split.
+    - unfold parents_of.
+      rewrite (find_parents_complete pre m p l2 (S (length m)) p tp [] u); auto.
+      + inversion Hnd as [|? ? _ Hnd']; subst.
+        apply NoDup_rev in Hnd'. rewrite Hl in Hnd'. apply NoDup_remove_2 in Hnd' as Hni.
+        apply NoDup_remove_1 in Hnd'. simpl. constructor.
+        * intros Hin'. apply Hni. apply in_or_app. auto.
+        * clear - Hnd'. induction l1; simpl in *; auto. inversion Hnd'; auto.
+      + assert (NoDup (rev ps)) as Hr by (apply NoDup_rev; inversion Hnd; auto).
+        assert (incl (rev ps) (mkeys m)) as Hi.
+        { eapply epath_in_keys. rewrite Hl. exact Hpath. }
+        pose proof (NoDup_incl_length Hr Hi) as Hle. rewrite Hl, app_length in Hle. simpl in Hle.
+        unfold mkeys in Hle. rewrite map_length in Hle. lia.
+    - intros w Hw. apply in_rev. rewrite Hl. apply in_or_app. right. simpl. right.
+      exact (proj2 (in_rev l2 w) Hw).
+  Qed.
+
+  (* first loop: the parents table holds parents_of for every template *)
+  Lemma first_loop_par todo : forall par sz tab par' sz' tab',
+    NoDup (mkeys todo) ->
+    first_loop ev m todo par sz tab = Ok (par', sz', tab') ->
+    (forall n ps, ~ In n (mkeys todo) -> mfind n par = Some ps -> mfind n par' = Some ps) /\
+    (forall n t, In (n, t) todo -> exists ps, parents_of pre m n t = Ok ps /\ mfind n par' = Some ps).
+  Proof.
+    induction todo as [|[n t] todo IH]; intros par sz tab par' sz' tab' Hnd H; simpl in H.
+    - injection H as <- <- <-. split; auto. intros n t [].
+    - fold pre in H. destruct (parents_of pre m n t) as [ps|] eqn:Ep; [|discriminate].
+      destruct (if ev_fix_d10 ev then _ else _); [|discriminate].
+      destruct (add_components _ _ _ _) as [tab1|]; [|discriminate].
+      simpl in Hnd. inversion Hnd as [|? ? Hni Hnd']; subst.
+      destruct (IH _ _ _ _ _ _ Hnd' H) as [A B]. split.
+      + intros k ps' Hk Hf. apply A; [simpl in Hk; tauto|].
+        rewrite mfind_minsert_other; auto. simpl in Hk. intros ->. tauto.
+      + intros k t' [E|Hin].
+        * injection E as <- <-. exists ps. split; auto. apply A; auto. apply mfind_minsert_same.
+        * apply B. exact Hin.
+  Qed.
+
+  Lemma include_loop_ok succ todo :
+    include_loop succ m todo = Ok tt ->
+    forall n, In n (mkeys todo) -> exists v, dfs_check name_eqb succ (S (length m)) n = Ok v.
+  Proof.
+    induction todo as [|[k t] todo IH]; intros H n Hn; simpl in *; [destruct Hn|].
+    unfold check_include_cycles in H.
+    destruct (dfs_check name_eqb succ (S (length m)) k) as [v|] eqn:E; [|discriminate].
+    destruct Hn as [<-|Hn]; eauto.
+  Qed.
+
+  Lemma inc_succ_fixed_closed par x y : In y (inc_succ_fixed pre m par x) -> In y (mkeys m).
+  Proof.
+    unfold inc_succ_fixed. intros H. apply filter_map_In in H. destruct H as (i & _ & Hr).
+    eapply resolve_in_keys; eauto.
+  Qed.
+
+  Lemma inc_succ_pinned_closed x y : In y (inc_succ_pinned pre m x) -> In y (mkeys m).
+  Proof.
+    unfold inc_succ_pinned. intros H. apply filter_map_In in H. destruct H as (i & _ & Hr).
+    eapply resolve_in_keys; eauto.
+  Qed.
+End Accept.
+
+(* the include walk of the model, for both successor functions: it succeeds for every template
+   iff the resolved include relation has no cycle (fuel = number of templates + 1) *)
+Theorem include_dfs_spec (m : smap) (succ : name -> list name) :
+  (forall x y, In y (succ x) -> In y (mkeys m)) ->
+  ((forall n, In n (mkeys m) -> check_include_cycles succ m n = Ok tt)
+   <-> acyclic (edge succ)).
+Proof.
+  intros Hcl.
+  assert (length (mkeys m) <= S (length m)) as Hlen by (unfold mkeys; rewrite map_length; lia).
+  rewrite <- (dfs_spec name_eqb succ name_eqb_eq (mkeys m) Hcl (S (length m)) Hlen).
+  unfold check_include_cycles. split; intros H n Hn; specialize (H n Hn).
+  - destruct (dfs_check name_eqb succ (S (length m)) n); [eauto|discriminate].
+  - destruct H as [v ->]. reflexivity.
+Qed.
+
+Theorem include_err_spec (m : smap) (succ : name -> list name) n :
+  (forall x y, In y (succ x) -> In y (mkeys m)) -> In n (mkeys m) ->
+  (check_include_cycles succ m n = Err EkCircularInclude <-> leads_to_cycle (edge succ) n).
+Proof.
+  intros Hcl Hn.
+  assert (length (mkeys m) <= S (length m)) as Hlen by (unfold mkeys; rewrite map_length; lia).
+  rewrite <- (dfs_check_circular_iff name_eqb succ name_eqb_eq (mkeys m) Hcl (S (length m)) n Hlen Hn).
+  unfold check_include_cycles. destruct (dfs_check name_eqb succ (S (length m)) n); split; congruence.
+Qed.
